@@ -1,6 +1,7 @@
 package simkdc
 
 import (
+	crand "crypto/rand"
 	"encoding/binary"
 	"fmt"
 	"io"
@@ -47,14 +48,32 @@ type Endpoint struct {
 // Addr returns host:port.
 func (e *Endpoint) Addr() string { return fmt.Sprintf("127.0.0.1:%d", e.Port) }
 
-// reserve finds a port number free for both UDP and TCP and binds what the modes need.
+// Ports come from a private pool below the kernel's ephemeral range so that a side that must
+// REFUSE (nothing bound) cannot be re-bound by a concurrently created endpoint or by a client's
+// ephemeral source port. The pool position starts at a random offset per process.
+var portCtr atomic.Int64
+
+func init() {
+	var b [2]byte
+	crand.Read(b[:])
+	portCtr.Store(int64(binary.BigEndian.Uint16(b[:])) % poolSize)
+}
+
+const (
+	poolBase = 10240
+	poolSize = 20000
+)
+
+func nextPort() int { return poolBase + int(portCtr.Add(1)%poolSize) }
+
+// NewEndpoint binds what the modes need on a fresh pool port.
 func NewEndpoint(name string, k *KDC, udpMode, tcpMode string) (*Endpoint, error) {
-	for try := 0; try < 50; try++ {
-		l, err := net.ListenTCP("tcp4", &net.TCPAddr{IP: net.IPv4(127, 0, 0, 1)})
+	for try := 0; try < 200; try++ {
+		port := nextPort()
+		l, err := net.ListenTCP("tcp4", &net.TCPAddr{IP: net.IPv4(127, 0, 0, 1), Port: port})
 		if err != nil {
-			return nil, err
+			continue
 		}
-		port := l.Addr().(*net.TCPAddr).Port
 		u, err := net.ListenUDP("udp4", &net.UDPAddr{IP: net.IPv4(127, 0, 0, 1), Port: port})
 		if err != nil {
 			l.Close()
